@@ -1,0 +1,16 @@
+// Copyright (c) 2019,CAOHONGJU All rights reserved.
+// Use of this source code is governed by a MIT-style
+// license that can be found in the LICENSE file.
+
+//go:build !verif
+// +build !verif
+
+// Package vhook provides verification schedule/observation points.
+// Without the `verif` build tag every call is an empty inlinable stub.
+package vhook
+
+// Enabled reports whether hooks are compiled in.
+const Enabled = false
+
+// At marks a verification point; no-op without the verif tag.
+func At(point string, obj interface{}) {}
